@@ -30,13 +30,15 @@ RetTypes ==
 SelfKinds == {K("none"), K("opq"), K("opqmut"), StructT("Inner"), StructT("Mix"), EnumT}
 WriteOK(ret) == ret.k = "unit" \/ (ret.k = "res" /\ ret.ok.k = "unit") \/ (ret.k = "opt" /\ ret.t.k = "unit")
 \* borrowed returns need something to borrow from
-RetOK(sf, ret) == (ret.k \in {"opq", "optopq", "str", "slice"} \/ (ret.k = "res" /\ ret.ok.k = "opq")) => sf.k \in {"opq", "opqmut"}
-                  /\ (ret.k = "struct" /\ ret.n = "Brw" => sf.k \in {"opq", "opqmut"})
+RetOK(sf, ret) ==
+  /\ ((ret.k \in {"opq", "optopq", "str", "slice"} \/ (ret.k = "res" /\ ret.ok.k = "opq")) => sf.k \in {"opq", "opqmut"})
+  /\ ((ret.k = "struct" /\ ret.n = "Brw") => sf.k \in {"opq", "opqmut"})
+  /\ ((ret.k = "slice" /\ ret.m = "mut") => sf.k = "opqmut")
 
 Sg(sf, ps, w, r) == [self |-> sf, params |-> ps, write |-> w, ret |-> r]
 CoverSigs ==
   {Sg(K("opq"), <<t>>, FALSE, UnitT) : t \in ParamTypes}
-  \cup {Sg(K("opq"), <<>>, FALSE, r) : r \in RetTypes}
+  \cup {Sg(IF r.k = "slice" /\ r.m = "mut" THEN K("opqmut") ELSE K("opq"), <<>>, FALSE, r) : r \in RetTypes}
   \cup {Sg(sf, <<P("u16")>>, FALSE, P("u32")) : sf \in SelfKinds}
   \cup {Sg(K("opq"), <<P("u8")>>, TRUE, r) : r \in {x \in RetTypes : WriteOK(x)}}
   \cup {Sg(K("none"), <<t>>, FALSE, P("bool")) : t \in {StructT(n) : n \in InStructs}}
@@ -77,7 +79,10 @@ LayoutSane == \A t \in AllTypes : \A ptr \in {32, 64} :
        /\ \A i \in 1..(Len(sh.fields) - 1) : ly.offsets[i] + Size(sh.fields[i], ptr) <= ly.offsets[i + 1]
        /\ ly.offsets[Len(sh.fields)] + Size(sh.fields[Len(sh.fields)], ptr) <= ly.size
 StructLayouts == [n \in DOMAIN StructDefs |-> [p64 |-> Layout(Shape(StructT(n)), 64), p32 |-> Layout(Shape(StructT(n)), 32)]]
-Emit == Done => PrintT(<<"CASE", ToJson([sig |-> sig, shape |-> SigShape(sig.self, sig.params, sig.write, sig.ret)])>>)
+SA(sh) == IF sh.s = "void" THEN [size |-> 0, align |-> 1] ELSE [size |-> Size(sh, 64), align |-> Align(sh, 64)]
+Emit == Done => LET ss == SigShape(sig.self, sig.params, sig.write, sig.ret) IN
+                PrintT(<<"CASE", ToJson([sig |-> sig, shape |-> ss,
+                                         lay |-> [ret |-> SA(ss.ret), params |-> [i \in 1..Len(ss.params) |-> SA(ss.params[i])]]])>>)
 EmitDefs == (Mode = "cover" /\ sig = Sg(K("opq"), <<>>, FALSE, UnitT)) =>
                PrintT(<<"DEFS", ToJson([structs |-> StructDefs, layouts |-> StructLayouts,
                                         shapes |-> [n \in DOMAIN StructDefs |-> Shape(StructT(n))]])>>)
